@@ -2,6 +2,7 @@ package lru
 
 import (
 	"fmt"
+	"os"
 	"strings"
 	"time"
 
@@ -229,7 +230,7 @@ func Generate(r *sim.Rng, prop, tier string, idx int) *sim.Case {
 	if prop == "C11" {
 		capa = int64(1 + r.Intn(8))
 	}
-	if r.Chance(1, 10) {
+	if r.Chance(1, 10) && !noHuge {
 		capa = hugeCapacity(r)
 	}
 	c.Knobs["capacity"] = capa
@@ -322,6 +323,12 @@ func genBigPop(r *sim.Rng, c *sim.Case, tier string) {
 	c.Tasks = []sim.Task{task}
 }
 
+// noHuge (environment DSIM_NOHUGE=1) leaves the astronomically large capacities out:
+// an implementation that sizes its tables to the capacity up front cannot be
+// constructed with them (the worker dies of memory exhaustion, which the driver
+// reports as trouble, not as a verdict); with the switch such a tree can still be checked.
+var noHuge = os.Getenv("DSIM_NOHUGE") != ""
+
 // hugeCapacity: "and larger" - capacities nothing ever reaches, chosen around
 // the powers of two where a narrower integer type would wrap.
 func hugeCapacity(r *sim.Rng) int64 {
@@ -330,7 +337,7 @@ func hugeCapacity(r *sim.Rng) int64 {
 
 func genConc(r *sim.Rng, c *sim.Case, keys []string) {
 	c.Knobs["capacity"] = int64(1 + r.Intn(3))
-	if r.Chance(1, 12) {
+	if r.Chance(1, 12) && !noHuge {
 		c.Knobs["capacity"] = hugeCapacity(r)
 	}
 	c.Knobs["flavor"] = int64(sim.Pick(r, 0, 1, 1, 3))
